@@ -22,6 +22,7 @@
 -/
 import Hv.Storage.CorruptLemmas
 import Hv.Storage.ReaderLemmas
+import Hv.Storage.TornLemmas
 import Hv.Storage.Writer
 import Hv.Basic.Verdict
 
@@ -286,6 +287,18 @@ theorem not_holds_of_trailingIgnored (cfg : Cfg) (hb : cfg.parseConsumesAll = fa
 /-- …and at the level of `LoadIndex`: the replayed state contains the deleted key -/
 example : replay goodCfg [oneEntry] = [([0x6b], [])] ∧ replay goodCfg [oneEntry, delEntry] = [] := by decide
 
+/-- The treatment of a cut-short payload does not affect `Holds` (both values are covered by
+    `holds_of_good`); with the EOF treatment a file cut at *any* offset of its block area loads to
+    the replay of a prefix of the written blocks — only records that were actually written. -/
+theorem torn_tail_loads_prefix (cfg : Cfg) (he : cfg.shortPayloadIsEOF = true) (codec : Codec) (crc : Checksum)
+    (h : FileHeader) (name : Bytes) (blocks : List (List Entry)) (hv : h.Valid) (hn : NameOk h name)
+    (hg : ∀ b ∈ blocks, GoodBlock b) (k : Nat) :
+    ∃ j, j ≤ blocks.length ∧
+      loadIndex cfg codec.toDecoder crc (encodeFileHeader h ++ (name ++ (renderBlocks codec crc blocks).take k))
+        = .ok (replay cfg (blocks.take j).flatten,
+               if name.isEmpty then metaName (blocks.take j).flatten else name) :=
+  load_is_prefix_replay cfg he codec crc h name blocks hv hn hg k
+
 /-! ### Decision over the extracted facts -/
 
 structure Facts where
@@ -300,6 +313,9 @@ structure Facts where
   boundsCompressedSize : Tri
   boundsDecodedLen : Tri
   parseConsumesAll : Tri
+  /-- a cut-short payload ends the data (`io.EOF`) at both sites (`yes`), fails the load at both
+      (`no`); `unknown` when the size pre-check and the `ReadFull` mapping disagree -/
+  shortPayloadIsEOF : Tri
   deriving Repr
 
 def cfgOf (f : Facts) : Cfg :=
@@ -308,7 +324,8 @@ def cfgOf (f : Facts) : Cfg :=
     validatesULen := f.validatesULen.isYes
     boundsCompressedSize := f.boundsCompressedSize.isYes
     boundsDecodedLen := f.boundsDecodedLen.isYes
-    parseConsumesAll := f.parseConsumesAll.isYes }
+    parseConsumesAll := f.parseConsumesAll.isYes
+    shortPayloadIsEOF := f.shortPayloadIsEOF.isYes }
 
 /-- the parts of the reader the model hard-wires -/
 def shapeOk (f : Facts) : Bool :=
@@ -318,7 +335,7 @@ def shapeOk (f : Facts) : Bool :=
 
 def hasUnknown (f : Facts) : Bool :=
   f.validatesCrc == .unknown || f.validatesULen == .unknown || f.boundsCompressedSize == .unknown ||
-  f.boundsDecodedLen == .unknown || f.parseConsumesAll == .unknown
+  f.boundsDecodedLen == .unknown || f.parseConsumesAll == .unknown || f.shortPayloadIsEOF == .unknown
 
 def findings (f : Facts) : List String :=
   (if f.validatesCrc == .no then ["C04-checksum-not-validated"] else []) ++
@@ -341,7 +358,7 @@ theorem classify_sound (f : Facts) : (classify f).Sound (Holds (cfgOf f)) (Holds
     · trivial
     · rename_i hu
       simp only [hasUnknown, Bool.or_eq_true, beq_iff_eq, not_or] at hu
-      obtain ⟨⟨⟨⟨hu1, hu2⟩, hu3⟩, hu4⟩, hu5⟩ := hu
+      obtain ⟨⟨⟨⟨⟨hu1, hu2⟩, hu3⟩, hu4⟩, hu5⟩, _⟩ := hu
       split
       · rename_i hf
         refine ⟨?_, holds_partial _⟩
